@@ -53,8 +53,8 @@ class Gauss:
 
     @staticmethod
     def _Triangle(nPg: int) -> tuple[_types.Numbers, _types.Numbers, _types.Numbers]:
-        """available [1, 3, 6, 7, 12]\n
-        order = [1, 2, 3, 4, 5]"""
+        """available [1, 3, 6, 7, 12, 25]\n
+        order = [1, 2, 3, 4, 5, 8]"""
         if nPg == 1:
             ksis = [1 / 3]
             etas = [1 / 3]
@@ -102,6 +102,14 @@ class Gauss:
             etas = [a, a, 1 - 2 * a, b, b, 1 - 2 * b, d, c, c, d, 1 - c - d, 1 - c - d]
 
             weights = [p1, p1, p1, p2, p2, p2, p3, p3, p3, p3, p3, p3]
+
+        elif nPg == 25:
+            # conical product of two 5-point Gauss-Legendre rules (square collapsed on the triangle), order 8
+            x, w = np.polynomial.legendre.leggauss(5)
+            u, wu = np.meshgrid((x + 1) / 2, (x + 1) / 2, indexing="ij"), np.outer(w / 2, w / 2)
+            ksis = u[0].ravel().tolist()
+            etas = (u[1] * (1 - u[0])).ravel().tolist()
+            weights = (wu * (1 - u[0])).ravel().tolist()
         else:
             raise NotImplementedError("unknown nPg")
 
@@ -448,7 +456,12 @@ class Gauss:
             xis, etas, weights = Gauss._Triangle(nPg)  # type: ignore [assignment]
 
         elif elemType == ElemType.TRI15:
-            nPg = 12
+            if matrixType == MatrixType.rigi:
+                nPg = 12
+            elif matrixType == MatrixType.mass:
+                nPg = 25
+            else:
+                raise ValueError("unknown matrixType")
             xis, etas, weights = Gauss._Triangle(nPg)  # type: ignore [assignment]
 
         elif elemType == ElemType.QUAD4:
